@@ -51,6 +51,11 @@ DURS = [{"days": 1}, {"days": 2}, {"days": 365}, {"days": 366}, {"hours": 25},
         {"days": 59}, {"days": 60}]
 
 
+RAW_TEXTS = ["2000-02-30", "2001-02-29", "2000-02-29", "2000-01-31", "2000-366",
+             "2001-366", "2001-365", "2000-361", "2000-W53-1", "2004-W53-1",
+             "2000-W52-7", "1999-12-31T24:00Z", "20000230T1200Z", "2001060"]
+
+
 class Workers:
     def __init__(self):
         self.procs = {}
@@ -159,6 +164,9 @@ def concretise(cm, spec):
                   time_zone_minute=0)
         return {"op": "parse", "text": RC.render_point(pf).replace(
             "T00:00:00Z", "")}
+    if k == "parse_raw":
+        # fixed texts, some of which are dates in one mode and not in another
+        return {"op": "parse", "text": RAW_TEXTS[spec["x"] % len(RAW_TEXTS)]}
     if k == "recur":
         pf = dict(point_fields(cm, y, f, spec["rep"]), time_zone_hour=0,
                   time_zone_minute=0)
@@ -405,6 +413,10 @@ def make_machine(ctx, workers, seen):
         @rule(y=Y, f=Fr, rep=REP, k=st.sampled_from(["views", "parse", "unix"]))
         def views(self, y, f, rep, k):
             self._compute({"k": k, "y": y, "f": f, "rep": rep})
+
+        @rule(x=st.integers(0, len(RAW_TEXTS) - 1))
+        def parse_raw(self, x):
+            self._compute({"k": "parse_raw", "x": x})
 
         @rule(y=Y, f=Fr, what=st.sampled_from("cow"), x=st.integers(0, 7))
         def valid(self, y, f, what, x):
